@@ -137,6 +137,7 @@ type SpecFunc struct {
 	Pkg     string
 	Decr    Expr
 	NoAxiom bool
+	Opaque  bool // declared + triggered defining axiom even when non-recursive
 	Text    string
 	File    string
 	Line    int
@@ -989,6 +990,10 @@ func (p *parser) parseSpec() (*SpecFunc, error) {
 	if p.isId("macro") {
 		p.adv()
 		sf.Macro = true
+	}
+	if p.isId("opaque") {
+		p.adv()
+		sf.Opaque = true
 	}
 	if p.isId("func") {
 		p.adv()
